@@ -273,12 +273,19 @@ func runC10(c *core.Check) {
 				return true
 			}
 			for i, st := range blk.List {
-				es, ok := st.(*ast.ExprStmt)
-				if !ok {
-					continue
+				// the delete is a statement of its own, or sits in the condition of an if that examines its result
+				var call *ast.CallExpr
+				switch x := st.(type) {
+				case *ast.ExprStmt:
+					call, _ = x.X.(*ast.CallExpr)
+				case *ast.IfStmt:
+					for _, cl := range core.Calls(x.Cond, false) {
+						if core.IsCallTo(info, cl, "d2ir.(*Map).DeleteEdge") {
+							call = cl
+						}
+					}
 				}
-				call, ok := es.X.(*ast.CallExpr)
-				if !ok || !core.IsCallTo(info, call, "d2ir.(*Map).DeleteEdge") {
+				if call == nil || !core.IsCallTo(info, call, "d2ir.(*Map).DeleteEdge") {
 					continue
 				}
 				n++
